@@ -16,7 +16,7 @@
    configuration of mpf/tests/machine_files/credits/config/config.yaml).
    [d_wf d]: table/wrap-around/tiers of [d] belong together (true of [derive c] whenever its wrap-around > 0). *)
 From Common Require Import Prelude.
-From C20 Require Import Model Lemmas.
+From C20 Require Import Model Lemmas Formula FloatLemmas.
 Open Scope Z_scope.
 
 (* the pricing table the code builds is the difference table of the greedy tier bonus G *)
@@ -48,11 +48,8 @@ Theorem cap_overshoot_orig_refuted :
 Proof. exact cap_overshoot_orig_refuted_l. Qed.
 Print Assumptions cap_overshoot_orig_refuted.
 
-(* balance_formula — full statement: for every history, balance = units bought + G(units bought per tier epoch)
-   - units_per_game * players started, unless the maximum or an expiry intervenes.  Proved part (_partial): any
-   sequence of coin amounts inside one tier epoch with no maximum configured; game starts are covered by
-   start_deducts_exactly (which also restarts the epoch), the maximum by balance_bounds.  Missing: the composition
-   over arbitrary interleavings with expiry timers. *)
+(* balance_formula, one tier epoch, no maximum (kept from the first version; the composition over arbitrary
+   histories is [balance_formula] below) *)
 Theorem balance_formula_partial :
   forall d, d_wf d -> d_maxu d = 0 -> forall ns s,
     Forall (fun n => 0 <= n) ns -> 0 <= tc s < d_W d ->
@@ -167,3 +164,158 @@ Example start_burst_example :
   e_not_enough (apply_ev d (init d) (StartBurst 3)) = 3.
 Proof. exact start_burst_example_l. Qed.
 Print Assumptions start_burst_example.
+
+(* ---- balance_formula: arbitrary histories ------------------------------------------------------------
+   For EVERY history of coins, service credits, credit events, starts / add-player presses (also bursts), ball and
+   game ends, waits (expiry timers), free-play toggles, enable_credit_play re-entries, credit / earnings resets and
+   power cycles, from boot:
+     balance = units bought (coins: n + G(m+n) - G(m) with m the money of the current tier epoch; service; events)
+               - one game price per player started in credit play
+               - units lost (cut off by the maximum, cleared by an expiry or reset, not persisted over a power cycle)
+               + price not paid inside a start burst (known finding start-burst-unpaid),
+   and the code's modulo counter is the epoch money modulo the wrap-around.  The ghost account [run_g] (Formula.v)
+   is defined from the closed form G, never from the pricing table; [g_op]/[g_adv] state exactly when the epoch
+   restarts (g_m := 0): game start in credit play, ball 2 of player 1 once per game in credit play,
+   clear_all_credits, power cycle. *)
+Theorem balance_formula :
+  forall d ops, d_wf d -> d_okb d = true ->
+    let s := final d (init d) ops in
+    let g := snd (run_g d (init d) g0 ops) in
+    units s = g_in g - g_spent g - g_lost g + g_unpaid g /\ tc s = g_m g mod d_W d.
+Proof. exact balance_formula_full_l. Qed.
+Print Assumptions balance_formula.
+
+(* without a maximum, expiry times, credits_reset, bursts and power cycles nothing is lost:
+   balance = units bought + tier bonuses - price * players started *)
+Theorem balance_formula_exact :
+  forall d ops, d_wf d -> d_okb d = true ->
+    d_maxu d = 0 -> d_frac_ms d = 0 -> d_all_ms d = 0 -> forallb plain_op ops = true ->
+    let g := snd (run_g d (init d) g0 ops) in
+    units (final d (init d) ops) = g_in g - g_spent g /\ g_lost g = 0 /\ g_unpaid g = 0.
+Proof. exact balance_formula_exact_l. Qed.
+Print Assumptions balance_formula_exact.
+
+(* a free-play / credit-play switch changes neither the balance nor the tier progress (nor the ghost account) *)
+Theorem toggle_keeps_tier_progress :
+  forall d s g o, o = ToggleFree \/ o = EnableFree \/ o = EnableCredit ->
+    tc (apply_op d s o) = tc s /\ units (apply_op d s o) = units s /\ g_op d s g o = g.
+Proof. exact toggle_keeps_progress_l. Qed.
+Print Assumptions toggle_keeps_tier_progress.
+
+Example balance_formula_example :
+  let d := derive ex_cfg in
+  let ops := [Coin 2; Coin 2; Start; EndBall; EndGame; Start; Coin 2; ToggleFree; ToggleFree; Coin 2;
+              EndBall; Coin 2; Coin 2; Wait 40000] in
+  let g := snd (run_g d (init d) g0 ops) in
+  d_wf d /\ d_okb d = true /\
+  g_in g = 30 /\ g_spent g = 4 /\ g_lost g = 26 /\ g_unpaid g = 0 /\ g_m g = 0 /\ units (final d (init d) ops) = 0.
+Proof. exact ex_formula_full. Qed.
+Print Assumptions balance_formula_example.
+
+Example balance_formula_exact_example :
+  let d := derive ex_cfg0 in
+  let ops := [Coin 1; Start; Coin 1; EnableFree; EnableCredit; Coin 1; EndBall; Coin 1; Coin 1; Start] in
+  let g := snd (run_g d (init d) g0 ops) in
+  d_wf d /\ d_okb d = true /\ d_maxu d = 0 /\ d_frac_ms d = 0 /\ d_all_ms d = 0 /\ forallb plain_op ops = true /\
+  g_in g = 24 /\ g_spent g = 2 /\ g_m g = 8 /\ units (final d (init d) ops) = 22.
+Proof. exact ex_formula_exact. Qed.
+Print Assumptions balance_formula_exact_example.
+
+(* ---- power cycle: what survives ------------------------------------------------------------------------ *)
+Theorem reboot_spec :
+  forall d s off, let s' := apply_op d s (Reboot off) in
+    units s' = (if survives s (now s + off) then units s else 0) /\
+    fp s' = fp s /\ tc s' = 0 /\ ingame s' = false /\ dfrac s' = None /\ dall s' = None /\
+    a_coins s' = a_coins s /\ a_earn s' = a_earn s /\ a_paid s' = a_paid s.
+Proof. exact reboot_spec_l. Qed.
+Print Assumptions reboot_spec.
+
+(* the balance is on disk and not expired: every write to credit_units in credit play moves the expiry *)
+Theorem balance_survives_short_power_cycle :
+  forall d s n off, fp s = false -> 0 < d_persist_ms d -> pexp s <> None -> 0 <= n ->
+    0 <= off <= d_persist_ms d -> add_doit d s = true ->
+    let s1 := add_units d s n true in
+    units (apply_op d s1 (Reboot off)) = units s1.
+Proof. exact survives_short_l. Qed.
+Print Assumptions balance_survives_short_power_cycle.
+
+(* settings read path: the stored value is what is read, whatever the default; the default only without a file *)
+Theorem setting_reads_back :
+  forall default v, read_setting default (Some v) = v /\ read_setting default None = default.
+Proof. exact setting_reads_back_l. Qed.
+Print Assumptions setting_reads_back.
+
+Example reboot_example :
+  let d := derive ex_cfg in
+  let s := final d (init d) [Coin 2; Coin 0] in
+  units s = 5 /\ units (apply_op d s (Reboot 3599000)) = 5 /\ units (apply_op d s (Reboot 3601000)) = 0 /\
+  fp (final d (init d) [EnableFree; Reboot 1000]) = true /\ d_boot_fp d = false.
+Proof. exact reboot_example_l. Qed.
+Print Assumptions reboot_example.
+
+(* ---- money that is inexact in binary -------------------------------------------------------------------
+   [derive] performs the code's binary64 arithmetic on exact rationals (Float.v); [derive_ideal] is the exact
+   computation on minor units.  Of the UNFIXED code (int(price / unit)) the statement "units per game = price / unit"
+   is false: dimes and a 0.30 game give 2 units per game (two dimes start a game); a 0.20 coin with unit 0.3 - 0.2
+   raises.  Of the fixed code (fixes/C20-decimal-prices-float-truncation.patch) it holds on the whole family
+   {coins c, 2c, 5c; price p, tier 3p -> 4 credits} for every smallest coin of the real decimal currencies
+   (1, 2, 5, 10, 20, 25, 50 cents) and every price 0.01 .. 1.50, and on the 1/8 grid.  Bounded: evaluated inside the
+   kernel (vm_compute) — a general proof needs a binary64 error analysis and is not attempted. *)
+Theorem units_per_game_float_refuted :
+  exists c, cfg_exact c = true /\ d_upg (derive_ideal c) = 3 /\ d_upg (derive_x false c) = 2 /\ d_upg (derive c) = 3.
+Proof. exact float_truncation_refuted_l. Qed.
+Print Assumptions units_per_game_float_refuted.
+
+Theorem coin_units_float_refuted :
+  exists c, cfg_exact c = true /\ d_coin_units (derive_ideal c) = [2] /\
+            d_coin_units (derive_x false c) = [-1] /\ d_coin_units (derive c) = [2].
+Proof. exact float_coin_raises_refuted_l. Qed.
+Print Assumptions coin_units_float_refuted.
+
+Theorem fixed_float_is_ideal_bounded :
+  forall S c p, (S = 100 /\ In c coin_values /\ 1 <= p <= 150) \/ (S = 8 /\ 1 <= c <= 8 /\ 1 <= p <= 32) ->
+    fam_ok S c p = true.      (* fam_ok S c p := dcore_eqb (derive (fam S c p)) (derive_ideal (fam S c p)) *)
+Proof. exact fixed_float_is_ideal_l. Qed.
+Print Assumptions fixed_float_is_ideal_bounded.
+
+Example two_dimes_example :
+  let ops := [Coin 0; Coin 0; Start] in
+  ingame (final (derive_x false ex_dime) (init (derive_x false ex_dime)) ops) = true /\
+  ingame (final (derive ex_dime) (init (derive ex_dime)) ops) = false /\
+  ingame (final (derive ex_dime) (init (derive ex_dime)) (Coin 0 :: ops)) = true.
+Proof. exact two_dimes_l. Qed.
+Print Assumptions two_dimes_example.
+
+(* ---- start presses while a handler holds the player_adding queue (work item 4) ---------------------------
+   game.py creates the player when the request is approved and posts player_added (where the credits mode deducts)
+   only when the queue is released.  [StartHeld n w]: n presses inside one event-queue run, released after w ms.
+   Full statement "every player started pays one full price" is FALSE: beside the burst class (start_burst_refuted;
+   the window lasts as long as the queue is held) an expiry delay can clear the balance between the approval and
+   player_added ([start_held_expiry_refuted]).  [start_held_partial] is the statement with exactly these guards:
+   the balance covers all presses and no expiry delay is due within the hold.  StartHeld is covered by
+   balance_bounds, balance_formula (g_held) and earnings_equal_coins like every other operation. *)
+Theorem start_held_partial :
+  forall d s n w, fp s = false -> ingame s = true -> game_full s = false -> 0 < d_upg d ->
+    due (dfrac s) (now s + w) = false -> due (dall s) (now s + w) = false ->
+    Z.of_nat (S n) * d_upg d <= units s ->
+    let s' := apply_op d s (StartHeld (S n) w) in
+    units s' = units s - Z.of_nat (S n) * d_upg d /\ npl s' = npl s + Z.of_nat (S n) /\
+    a_paid s' = a_paid s + Z.of_nat (S n).
+Proof. exact start_held_partial_l. Qed.
+Print Assumptions start_held_partial.
+
+Theorem start_held_expiry_refuted :
+  exists c ops w, let d := derive c in let s := final d (init d) ops in
+    d_okb d = true /\ fp s = false /\ ingame s = true /\ game_full s = false /\ d_upg d <= units s /\
+    let s' := apply_op d s (StartHeld 1 w) in
+    npl s' = npl s + 1 /\ a_paid s' = a_paid s + 1 /\ units s' = 0 /\ units s = 5 /\ d_upg d = 2.
+Proof. exact start_held_expiry_refuted_l. Qed.
+Print Assumptions start_held_expiry_refuted.
+
+Example start_held_example :
+  let d := derive ex_cfg in let s := final d (init d) [Coin 2; Coin 2; Start] in
+  fp s = false /\ ingame s = true /\ game_full s = false /\ due (dfrac s) (now s + 5000) = false /\
+  due (dall s) (now s + 5000) = false /\ 2 * d_upg d <= units s /\
+  npl (apply_op d s (StartHeld 2 5000)) = 3 /\ units (apply_op d s (StartHeld 2 5000)) = units s - 4.
+Proof. exact start_held_example_l. Qed.
+Print Assumptions start_held_example.
